@@ -9,6 +9,8 @@
 use super::*;
 use crate::address::{Address, AddressParams, Payload};
 use core::mem::ManuallyDrop;
+use std::convert::TryFrom as _;
+use bitcoin::hashes::Hash as _;
 
 const N: usize = 45;
 
@@ -130,7 +132,7 @@ fn spec_address_template(b: &[u8; N], len: usize) -> bool {
 }
 
 //@ harness: address_from_script_iff_template class=F tier=quick
-//@ clause: Address::from_script(script, None, params) is Some exactly for p2pkh, p2sh, v0 witness programs of 20/32 bytes and v1..v16 witness programs of 2..=40 bytes (all byte strings of length 0..=45); the payload carries the hash / version / program bytes of the script. EXPECTED TO FAIL on the unfixed tree: DESIGN section 6 D7 (`OP_1 OP_0`, `OP_1 <1 byte>` are accepted)
+//@ clause: Address::from_script(script, None, params) is Some exactly for p2pkh, p2sh, v0 witness programs of 20/32 bytes and v1..v16 witness programs of 2..=40 bytes (all byte strings of length 0..=45); the payload carries exactly the hash / version / program bytes of the script (so that, with the address_script_pubkey_* harnesses, script_pubkey() of that address is the original script). EXPECTED TO FAIL on the unfixed tree: DESIGN section 6 D7 (`OP_1 OP_0`, `OP_1 <1 byte>` are accepted)
 #[kani::proof]
 fn address_from_script_iff_template() {
     let mut b: [u8; N] = kani::any();
@@ -140,15 +142,27 @@ fn address_from_script_iff_template() {
     let s = view(&mut b, len);
     let r = Address::from_script(&s, None, &AddressParams::ELEMENTS);
     let want = spec_address_template(&c, len);
+    let j: usize = kani::any();
+    kani::assume(j < 40);
     match r {
         Some(a) => {
             assert!(want, "from_script returned an address for a non-template script");
             assert!(a.blinding_pubkey.is_none());
             match &a.payload {
-                Payload::PubkeyHash(_) => assert!(spec_p2pkh(&c, len)),
-                Payload::ScriptHash(_) => assert!(spec_p2sh(&c, len)),
+                Payload::PubkeyHash(h) => {
+                    assert!(spec_p2pkh(&c, len));
+                    let hb: &[u8] = h.as_ref();
+                    assert!(hb.len() == 20 && hb[j % 20] == c[3 + j % 20]);
+                }
+                Payload::ScriptHash(h) => {
+                    assert!(spec_p2sh(&c, len));
+                    let hb: &[u8] = h.as_ref();
+                    assert!(hb.len() == 20 && hb[j % 20] == c[2 + j % 20]);
+                }
                 Payload::WitnessProgram { version, program } => {
                     assert!(spec_witness_program(&c, len) == Some((version.to_u8(), program.len())));
+                    // every program byte (symbolic index) is the script byte after the two header bytes
+                    if j < program.len() { assert!(program[j] == c[2 + j]); }
                 }
             }
             core::mem::forget(a);
@@ -172,6 +186,7 @@ macro_rules! addr_roundtrip {
     ($name:ident, $len:expr, $unw:literal) => {
         #[kani::proof]
         #[kani::stub(build_scriptint, scriptint_unreachable)]
+        #[kani::unwind($unw)] // the program length is concrete on every path but CBMC merges it with the `None` path
         fn $name() {
             const L: usize = $len;
             let mut b: [u8; L] = kani::any();
@@ -195,21 +210,96 @@ macro_rules! addr_roundtrip {
         }
     };
 }
-//@ harness: address_script_roundtrip_l23 class=F tier=quick
+//@ harness: address_script_roundtrip_l23 class=F tier=thorough timeout=1200
 //@ clause: whenever from_script yields an address, address.script_pubkey() is byte-identical to the script: all 23-byte scripts (p2sh, v1+ with 21-byte program)
 addr_roundtrip!(address_script_roundtrip_l23, 23, 26);
-//@ harness: address_script_roundtrip_l25 class=F tier=quick
+//@ harness: address_script_roundtrip_l25 class=F tier=thorough timeout=1200
 //@ clause: same, all 25-byte scripts (p2pkh, v1+ with 23-byte program)
 addr_roundtrip!(address_script_roundtrip_l25, 25, 28);
-//@ harness: address_script_roundtrip_l22 class=F tier=quick
+//@ harness: address_script_roundtrip_l22 class=F tier=thorough timeout=1200
 //@ clause: same, all 22-byte scripts (v0 p2wpkh, v1+ with 20-byte program)
 addr_roundtrip!(address_script_roundtrip_l22, 22, 25);
-//@ harness: address_script_roundtrip_l34 class=F tier=quick
-//@ clause: same, all 34-byte scripts (v0 p2wsh, p2tr, v2..v16 with 32-byte program)
-addr_roundtrip!(address_script_roundtrip_l34, 34, 37);
 //@ harness: address_script_roundtrip_l04 class=F tier=quick
 //@ clause: same, all 4-byte scripts (shortest witness program)
 addr_roundtrip!(address_script_roundtrip_l04, 4, 7);
-//@ harness: address_script_roundtrip_l42 class=F tier=quick
-//@ clause: same, all 42-byte scripts (longest witness program)
-addr_roundtrip!(address_script_roundtrip_l42, 42, 45);
+
+// ---- script_pubkey() on each payload kind (second half of the round trip, no Option merge, concrete lengths) ----
+fn any_witver() -> (u8, bech32::Fe32) {
+    let v: u8 = kani::any();
+    kani::assume(v <= 16);
+    match bech32::Fe32::try_from(v) {
+        Ok(f) => (v, f),
+        Err(_) => { kani::assume(false); (0, bech32::Fe32::Q) }
+    }
+}
+
+macro_rules! spk_witness {
+    ($name:ident, $len:expr) => {
+        #[kani::proof]
+        #[kani::stub(build_scriptint, scriptint_unreachable)]
+        fn $name() {
+            const L: usize = $len;
+            let prog: [u8; L] = kani::any();
+            let (v, fe) = any_witver();
+            let a = ManuallyDrop::new(Address {
+                params: &AddressParams::ELEMENTS,
+                payload: Payload::WitnessProgram { version: fe, program: prog.to_vec() },
+                blinding_pubkey: None,
+            });
+            let s = ManuallyDrop::new(a.script_pubkey());
+            let out = s.as_bytes();
+            assert!(out.len() == L + 2);
+            assert!(out[0] == if v == 0 { 0 } else { 0x50 + v });
+            assert!(out[1] as usize == L);
+            let j: usize = kani::any();
+            kani::assume(j < L);
+            assert!(out[2 + j] == prog[j]);
+            // and it is recognised again as the same template
+            assert!(s.is_witness_program());
+            kani::cover!(v == 16);
+            kani::cover!(v == 0);
+        }
+    };
+}
+//@ harness: address_script_pubkey_wit_l02 class=F tier=quick
+//@ clause: script_pubkey() of a witness-program address (every version 0..=16, every 2-byte program) is `<version opcode> <push 2> <program>`: small-integer opcode for the version (never the generic script-number encoder), direct push, program verbatim
+spk_witness!(address_script_pubkey_wit_l02, 2);
+//@ harness: address_script_pubkey_wit_l20 class=F tier=quick
+//@ clause: same, every 20-byte program (p2wpkh and v1+)
+spk_witness!(address_script_pubkey_wit_l20, 20);
+//@ harness: address_script_pubkey_wit_l32 class=F tier=quick
+//@ clause: same, every 32-byte program (p2wsh, p2tr and v2+)
+spk_witness!(address_script_pubkey_wit_l32, 32);
+//@ harness: address_script_pubkey_wit_l40 class=F tier=quick
+//@ clause: same, every 40-byte program (longest)
+spk_witness!(address_script_pubkey_wit_l40, 40);
+
+//@ harness: address_script_pubkey_hashes class=F tier=quick
+//@ clause: script_pubkey() of a p2pkh address is `76 a9 14 <hash> 88 ac`, of a p2sh address `a9 14 <hash> 87`, for every 20-byte hash; both are recognised again by is_p2pkh / is_p2sh
+#[kani::proof]
+fn address_script_pubkey_hashes() {
+    let h: [u8; 20] = kani::any();
+    let j: usize = kani::any();
+    kani::assume(j < 20);
+    let a = ManuallyDrop::new(Address {
+        params: &AddressParams::LIQUID,
+        payload: Payload::PubkeyHash(PubkeyHash::from_byte_array(h)),
+        blinding_pubkey: None,
+    });
+    let s = ManuallyDrop::new(a.script_pubkey());
+    let o = s.as_bytes();
+    assert!(o.len() == 25 && o[0] == 0x76 && o[1] == 0xa9 && o[2] == 0x14 && o[23] == 0x88 && o[24] == 0xac);
+    assert!(o[3 + j] == h[j]);
+    assert!(s.is_p2pkh());
+    let a2 = ManuallyDrop::new(Address {
+        params: &AddressParams::LIQUID,
+        payload: Payload::ScriptHash(ScriptHash::from_byte_array(h)),
+        blinding_pubkey: None,
+    });
+    let s2 = ManuallyDrop::new(a2.script_pubkey());
+    let o2 = s2.as_bytes();
+    assert!(o2.len() == 23 && o2[0] == 0xa9 && o2[1] == 0x14 && o2[22] == 0x87);
+    assert!(o2[2 + j] == h[j]);
+    assert!(s2.is_p2sh());
+    kani::cover!(true);
+}
